@@ -25,6 +25,7 @@ def run(chk):
     r10d(chk)
     r10e(chk)
     r10f(chk)
+    r10g(chk)
 
 
 # ---------------------------------------------------------------------------
@@ -388,3 +389,74 @@ def r10f(chk, rid='R10.f'):
     exits, _ = cowritten(sn, {'name': 'self._name', 'literal': 'self._literalname', 'tokens': 'self.seqs[0]'})
     for s in sorted(exits, key=sorted):
         chk.ob(rid, PROP, 'Property._setName', f'path writing {sorted(s) or "nothing"}', not s or len(s) == 3, 'name fields diverge')
+
+
+def r10g(chk, rid='R10.g'):
+    chk.rule(rid, 'variables block, decided by evaluation: CSSVariablesDeclaration.setVariable and removeVariable (with the helpers they call) are evaluated on their syntax trees over a model block whose item list keeps literal names as written - escaped (wid\\th), upper case (HEIGHT), plain - next to comments: after every call, under any spelling of the name, the item list and the name map list exactly the same variables once each with the same values; an update replaces the one item of the name in place, a removal deletes it and returns the old text')
+    import re as _re
+
+    from sa.absint import Evaluator, Raised, Record
+
+    m = chk.repo.mod(VARS)
+
+    class PV(Record):
+        def __init__(self, cssText=None, parent=None, **k):
+            Record.__init__(self, cssText=cssText, wellformed=True, parent=parent)
+
+    class SeqM(list):
+        _readonly = True
+
+        def append(self, val, typ=None, line=None, col=None):
+            list.append(self, Record(value=val, type=typ, line=line, col=col))
+
+        def replace(self, i, val, typ, line=None, col=None):
+            self[i] = Record(value=val, type=typ, line=line, col=col)
+
+    def norm(x):
+        return _re.sub(r'\\([^0-9a-fA-F\n\r\f])', r'\1', x).lower() if x else x
+
+    def block():
+        sq = SeqM()
+        vars_ = {}
+        for lit, val in (('wid\\th', '1px'), (None, '/*c*/'), ('HEIGHT', '2px'), ('c', '3')):
+            if lit is None:
+                list.append(sq, Record(value=Record(cssText=val), type='COMMENT', line=1, col=1))
+            else:
+                pv = PV(cssText=val)
+                list.append(sq, Record(value=[lit, pv], type='var', line=1, col=1))
+                vars_[norm(lit)] = pv
+        return sq, vars_
+
+    def view(sq):
+        return [(norm(it.value[0]), it.value[1].cssText) for it in sq if it.type == 'var']
+
+    intr = {'normalize': norm, 'ProdParser().parse': lambda text_, *a, **k: (bool(_re.fullmatch(r'[a-z_-][a-z0-9_-]*', text_ or '')), None, None, None),
+            'Sequence': lambda *a, **k: None, 'PreDef.ident': lambda *a, **k: None, 'PropertyValue': PV}
+    bad = []
+    n = 0
+    for name in ('width', 'WIDTH', 'wid\\th', 'w\\idth', 'height', 'Height', 'c', 'new', 'N\\ow'):
+        sq, vars_ = block()
+        me = Record(seq=sq, _vars=vars_, _checkReadonly=lambda: None, _log=Record(error=lambda *a, **k: None))
+        res = Evaluator(m.get('CSSVariablesDeclaration.setVariable'), intrinsics={**intr, 'self._log.error': me._log.error}, model_types=(SeqM,), module=m, cls='CSSVariablesDeclaration').run(self=me, variableName=name, value='9')
+        n += 1
+        want = [(k, '9' if k == norm(name) else v) for k, v in view(block()[0])]
+        if norm(name) not in dict(want):
+            want.append((norm(name), '9'))
+        got = view(sq) if not isinstance(res, Raised) else repr(res)
+        mapped = sorted((k, v.cssText) for k, v in me._vars.items())
+        if got != want or mapped != sorted(want) or sq._readonly is not True:
+            bad.append(f'setVariable({name!r}, "9"): items {got}, name map {mapped}; prescribed {want} in both')
+    for name in ('width', 'WIDTH', 'wid\\th', 'height', 'HEIGHT', 'c', 'absent'):
+        sq, vars_ = block()
+        me = Record(seq=sq, _vars=vars_, _checkReadonly=lambda: None, _log=Record(error=lambda *a, **k: None))
+        res = Evaluator(m.get('CSSVariablesDeclaration.removeVariable'), intrinsics={**intr, 'self._log.error': me._log.error}, model_types=(SeqM,), module=m, cls='CSSVariablesDeclaration').run(self=me, variableName=name)
+        n += 1
+        before = view(block()[0])
+        want = [(k, v) for k, v in before if k != norm(name)]
+        wantret = dict(before).get(norm(name), '')
+        got = view(sq) if not isinstance(res, Raised) else repr(res)
+        mapped = sorted((k, v.cssText) for k, v in me._vars.items())
+        if got != want or mapped != sorted(want) or res != wantret:
+            bad.append(f'removeVariable({name!r}): items {got}, name map {mapped}, returns {res!r}; prescribed {want} in both, returning {wantret!r}')
+    chk.extra['variable_edit_cases'] = n
+    chk.ob(rid, VARS, 'CSSVariablesDeclaration', f'all {n} edits keep the item list and the name map in step', not bad, f'{len(bad)} cases differ, e.g. ' + '; '.join(bad[:2]))
